@@ -472,6 +472,25 @@ fn judge(case: &SourceCase, t: &Trace, which: Which, labels: &mut Labels, nontri
                         if !ok {
                             bail!("measurement-timestamps-differ", "step {si}: events {:?} vs T1 {:#x} T2 {:#x} T3 {:#x} T4 {:#x}", s.events, d.send_time, r.t2, r.t3, d.recv_time);
                         }
+                        // leap status as the answer reports it on the wire: NTPv3/4 LI 3 = unsynchronised; NTPv5 carries
+                        // "synchronised" as a flag (the scripted server sets it for stratum 1..15) and LI 3 = unknown
+                        if let RespKind::Time { stratum } = r.kind {
+                            let li = r.li & 3;
+                            let want = if d.version == 5 {
+                                if stratum != 0 && stratum < 16 { if li == 3 { 3 } else { li } } else { 4 }
+                            } else if li == 3 {
+                                4
+                            } else {
+                                li
+                            };
+                            for e in &s.events {
+                                if let CtlEvent::Measurement { leap, .. } = e {
+                                    if *leap != want {
+                                        bail!("measurement-leap-differs-from-wire", "step {si}: version {} stratum {stratum} LI {li}: measurement says leap code {leap}, the answer says {want} (0 none, 1 +1, 2 -1, 3 unknown, 4 unsynchronised)", d.version);
+                                    }
+                                }
+                            }
+                        }
                         if let Some(i) = d.for_req {
                             measured_for.insert(i);
                         }
@@ -685,6 +704,7 @@ fn first_effective_removed(case: &SourceCase, _t: &Trace, removed: &std::collect
                     AuthSel::WrongKey(_) => "wrong-key",
                     AuthSel::ClientKey => "c2s-key",
                     AuthSel::Corrupt(_) => "corrupt-authenticator",
+                    AuthSel::EmptyCiphertext { .. } => "empty-ciphertext",
                 }
             ),
             Op::Replay { .. } => "replay".into(),
@@ -698,7 +718,7 @@ fn first_effective_removed(case: &SourceCase, _t: &Trace, removed: &std::collect
     kinds.join("+")
 }
 
-fn check_source(case: &SourceCase, which: Which) -> Outcome {
+pub fn check_source(case: &SourceCase, which: Which) -> Outcome {
     let t = crate::rt::run_paused(run_case(case));
     let mut labels = Labels::default();
     let mut nontrivial = false;
